@@ -32,7 +32,8 @@ Inductive vreason :=
  | AsyncComp                          (* "Comprehension can't be async" *)
  | TooManyArgs                        (* "Too many arguments for dataclass" *)
  | DupArg (k : option string)         (* fixes/F17.diff: "Multiple values for argument" *)
- | UnknownArg (k : option string).    (* "Argument k not found in dataclass"; None = a [**kw] entry *)
+ | UnknownArg (k : option string)     (* "Argument k not found in dataclass"; None = a [**kw] entry *)
+ | DynamicArg.                        (* F58: a starred positional argument has no field it could be bound to statically *)
 
 Inductive crashkind :=
  | GenNotComprehension.               (* AttributeError: element of [generators] has no .target *)
@@ -237,12 +238,18 @@ Definition class_fields (c : const) : option (list string) :=
 Definition dict_of_assoc (assoc : list (string * expr)) : expr :=
   Dict (map (fun kv => Const (CStr (fst kv))) assoc) (map snd assoc).
 
+(* a starred positional argument [*xs] (an [Other] node of class Starred) *)
+Definition is_starred (e : expr) : bool :=
+  match e with Other cls _ _ => String.prefix "Starred;" cls | _ => false end.
+
 (* what visit_Call does to the generically visited node *)
 Definition lower_call_with (conv : list string -> list expr -> list (option string * expr) -> bres) (a : expr) : sres expr :=
   match a with
   | Call (Const c) args kwn kwv =>
       match class_fields c with
       | Some fields =>
+          if existsb is_starred args then Err (ValueErr DynamicArg)      (* F58 *)
+          else
           match conv fields args (combine kwn kwv) with
           | BOk assoc => Ok (dict_of_assoc assoc)
           | BErr r => Err (ValueErr r)
